@@ -1,6 +1,8 @@
 from .p_pot import C02, C14
 from .p_poker import C01, C03, C04, C07, C13, C15
 from .p_eval import C05, C06
+from .p_sym import C18, C20
+from .p_iso import C16
 from .p_gin import C08, C09, C10, C11, C12, C17, C19
 
-REGISTRY = {"C01": C01, "C02": C02, "C03": C03, "C04": C04, "C05": C05, "C07": C07, "C06": C06, "C08": C08, "C09": C09, "C10": C10, "C11": C11, "C12": C12, "C17": C17, "C19": C19, "C13": C13, "C14": C14, "C15": C15}
+REGISTRY = {"C01": C01, "C02": C02, "C03": C03, "C04": C04, "C05": C05, "C07": C07, "C06": C06, "C08": C08, "C09": C09, "C10": C10, "C11": C11, "C12": C12, "C17": C17, "C19": C19, "C13": C13, "C14": C14, "C15": C15, "C16": C16, "C18": C18, "C20": C20}
